@@ -651,3 +651,44 @@ def u1(prog):
     if n < 1:
         raise Broken("no erase-remove site found (anchor tree::simplify vanished)")
     return inst, findings
+
+
+def u2(prog):
+    """a container that is searched with a binary search in the same function that appends to it in discovery order is not
+    kept sorted: the search then misses elements (e.g. a seen-list of abbreviation tables yields shared tables again)"""
+    inst, findings = [], []
+    n = 0
+    from zw import field_chain
+    for f in prog.funcs.values():
+        rel = prog.rel(f["file"])
+        if not rel.startswith("libzwerg/") or "/test-" in rel:
+            continue
+        body = f.get("body")
+        if body is None:
+            continue
+        searches = []
+        for c in calls(body):
+            if c.get("f", "").startswith(("std::binary_search<", "std::lower_bound<", "std::upper_bound<", "std::equal_range<")) and len(c["a"]) >= 2:
+                b = unwrap(c["a"][0])
+                while isinstance(b, dict) and b.get("k") == "ctor" and len(b.get("a", [])) == 1:
+                    b = unwrap(b["a"][0])
+                if isinstance(b, dict) and b.get("k") == "call" and b.get("fn") in ("begin", "cbegin") and b.get("obj") is not None:
+                    ch = field_chain(b["obj"])
+                    if ch:
+                        searches.append((c, ch))
+        if not searches:
+            continue
+        for c, ch in searches:
+            n += 1
+            appends = [x for x in calls(body) if x.get("fn") in ("push_back", "emplace_back") and x.get("obj") is not None and field_chain(x["obj"]) == ch]
+            sorts = [x for x in calls(body) if x.get("f", "").startswith(("std::sort<", "std::stable_sort<")) and any(field_chain(y.get("obj")) == ch for y in walk(x) if y.get("k") == "call" and y.get("fn") in ("begin",))]
+            ordered_ins = [x for x in calls(body) if x.get("fn") == "insert" and x.get("obj") is not None and field_chain(x["obj"]) == ch]
+            key = "U2:%s@%s" % (f["q"], c["l"])
+            inst.append((key, {"container": ".".join(ch[1]) or ch[0], "appends_in_same_function": len(appends), "sorts": len(sorts)}))
+            if appends and not sorts:
+                findings.append({"key": "U2:%s" % f["q"], "where": c["l"],
+                                 "msg": "%s binary-searches `%s` and appends to it with %s in the same function without keeping it sorted: elements appended out of order are not found again" % (f["q"], ".".join(ch[1]) or ch[0], appends[0]["fn"]),
+                                 "detail": None})
+    if n < 2:
+        raise Broken("fewer binary searches than confirmed by hand (2)")
+    return inst, findings
